@@ -1,6 +1,7 @@
 //! Family binary `gs_unit`: gossipsub unit-level properties (codec, backoff, caches, config,
 //! subscription filters).
 
+mod c30;
 mod c31;
 mod c32;
 mod c33;
@@ -9,5 +10,5 @@ mod c36;
 mod node;
 
 fn main() {
-    mc::main_dispatch(&[("C31", c31::run, c31::META), ("C32", c32::run, c32::META), ("C33", c33::run, c33::META), ("C34", c34::run, c34::META), ("C36", c36::run, c36::META)]);
+    mc::main_dispatch(&[("C30", c30::run, c30::META), ("C31", c31::run, c31::META), ("C32", c32::run, c32::META), ("C33", c33::run, c33::META), ("C34", c34::run, c34::META), ("C36", c36::run, c36::META)]);
 }
